@@ -15,6 +15,7 @@ var targetFile = map[string]string{
 	"ChecksumSize":       "GenFrame",
 	"poolIndex":          "GenFrame",
 	"relayRoute":         "GenFrame",
+	"mexCheckFrame":      "GenMex",
 }
 
 // varFields: constant fields of package-level composite-literal variables.
@@ -83,4 +84,9 @@ var targets = []Target{
 			"shouldRelease, err := c.relay.Relay(frame)":                                       "",
 			"if err != nil {...": "",
 		}},
+	// mex.go (C04): the id check recvPeerFrame applies to every frame it takes off recvCh
+	// result: 0 = nil, 4 = errUnexpectedFrameType
+	{Func: "messageExchange.checkFrame", Out: "mexCheckFrame", Params: "(fid : Z) (mid : Z)", Ret: "Z",
+		Hints:  map[string]string{"frame.Header.ID": "fid", "mex.msgID": "mid", "errUnexpectedFrameType": "4", "nil": "0"},
+		SHints: map[string]string{"mex.mexset.log.WithFields(...": ""}},
 }
